@@ -345,6 +345,7 @@ class Sim:
         _ACTIVE = self
         prev_rank = getattr(_tl, 'rank', None)
         try:
+            threading.stack_size(2 << 20)
             for r in self.ranks:
                 r.thread = threading.Thread(
                     target=self._thread_main, args=(r, fn),
